@@ -214,6 +214,12 @@ Definition clock_after (c : N) (o : op) : N := match o with OTick d => c + d | _
 
 Definition rel1 (r : obs) : list sg := match o_out r with Released g => [g] | _ => [] end.
 
+Lemma rel1_relabel b out s : rel1 {| o_out := relabel b out; o_store := s |} = rel1 {| o_out := out; o_store := s |}.
+Proof. unfold rel1, relabel. simpl. destruct b; [|reflexivity]. destruct out; reflexivity. Qed.
+
+Lemma relabel_released b out g : relabel b out = Released g -> out = Released g.
+Proof. unfold relabel. destruct b; [|auto]. destruct out; try discriminate; auto. Qed.
+
 Lemma released_cons r rs : released (r :: rs) = rel1 r ++ released rs.
 Proof. unfold rel1. simpl. destruct (o_out r); reflexivity. Qed.
 
@@ -281,7 +287,7 @@ Proof.
     apply inv_no_release; assumption.
   - (* OAdd *)
     destruct (exec (st x) (op_cut (OAdd e)) (plan x (OAdd e))) as [s' out] eqn:He.
-    inversion Hstep; subst. clear Hstep.
+    inversion Hstep; subst. clear Hstep. rewrite ?rel1_relabel.
     assert (HF : Forall (write_ok R) (fst (plan x (OAdd e))) /\
                  forall g, snd (plan x (OAdd e)) <> Released g).
     { simpl. destruct (acct (st x)).
@@ -299,7 +305,7 @@ Proof.
     rewrite Hout. apply inv_no_release; assumption.
   - (* ORemove *)
     destruct (exec (st x) (op_cut (ORemove e)) (plan x (ORemove e))) as [s' out] eqn:He.
-    inversion Hstep; subst. clear Hstep.
+    inversion Hstep; subst. clear Hstep. rewrite ?rel1_relabel.
     assert (HF : Forall (write_ok R) (fst (plan x (ORemove e))) /\
                  forall g, snd (plan x (ORemove e)) <> Released g).
     { simpl. destruct (acct (st x)); simpl; split; try discriminate; repeat constructor. }
@@ -312,7 +318,7 @@ Proof.
     rewrite Hout. apply inv_no_release; assumption.
   - (* OReact *)
     destruct (exec (st x) (op_cut (OReact e)) (plan x (OReact e))) as [s' out] eqn:He.
-    inversion Hstep; subst. clear Hstep.
+    inversion Hstep; subst. clear Hstep. rewrite ?rel1_relabel.
     assert (HF : Forall (write_ok R) (fst (plan x (OReact e))) /\
                  forall g, snd (plan x (OReact e)) <> Released g).
     { simpl. destruct (bump (conf x) e (st x) (clock x)) as [ws [r0|]] eqn:Hb; simpl;
@@ -326,7 +332,7 @@ Proof.
     rewrite Hout. apply inv_no_release; assumption.
   - (* OSignAtt *)
     destruct (exec (st x) (op_cut (OSignAtt src tgt e)) (plan x (OSignAtt src tgt e))) as [s' out] eqn:He.
-    inversion Hstep; subst. clear Hstep.
+    inversion Hstep; subst. clear Hstep. rewrite ?rel1_relabel.
     simpl in Hok. destruct Hok as (Hlt & Hclk & _ & _).
     specialize (Hlt eq_refl). specialize (Hclk eq_refl).
     simpl in He.
@@ -381,7 +387,7 @@ Proof.
       * tauto.
   - (* OSignBlk *)
     destruct (exec (st x) (op_cut (OSignBlk sl e)) (plan x (OSignBlk sl e))) as [s' out] eqn:He.
-    inversion Hstep; subst. clear Hstep.
+    inversion Hstep; subst. clear Hstep. rewrite ?rel1_relabel.
     simpl in Hok. destruct Hok as (Hclk & _). specialize (Hclk eq_refl).
     simpl in He.
     destruct (negb (acct (st x))).
@@ -430,12 +436,12 @@ Proof.
       * specialize (Hbound b Hin). lia.
   - (* OCheckAtt *)
     destruct (exec (st x) (op_cut (OCheckAtt src tgt e)) (plan x (OCheckAtt src tgt e))) as [s' out] eqn:He.
-    inversion Hstep; subst. clear Hstep. simpl in He.
+    inversion Hstep; subst. clear Hstep. rewrite ?rel1_relabel. simpl in He.
     destruct (check_att e (st x) src tgt); inversion He; subst; unfold rel1; simpl;
       apply inv_no_release; assumption.
   - (* OCheckBlk *)
     destruct (exec (st x) (op_cut (OCheckBlk sl e)) (plan x (OCheckBlk sl e))) as [s' out] eqn:He.
-    inversion Hstep; subst. clear Hstep. simpl in He.
+    inversion Hstep; subst. clear Hstep. rewrite ?rel1_relabel. simpl in He.
     destruct (check_prop e (st x) sl); inversion He; subst; unfold rel1; simpl;
       apply inv_no_release; assumption.
   - (* OCorrupt *)
@@ -575,7 +581,7 @@ Proof.
       - rewrite H. eexists; reflexivity. }
     destruct Hc as [r ->]. eexists; reflexivity. }
   destruct Hp as [r Hp]. rewrite Hp in He. apply exec_out in He.
-  destruct He as [->| ->]; discriminate.
+  intros Hr. apply relabel_released in Hr. destruct He as [->| ->]; discriminate.
 Qed.
 
 Lemma sign_blk_refused x sl e :
@@ -600,7 +606,7 @@ Proof.
       - rewrite H. eexists; reflexivity. }
     destruct Hc as [r ->]. eexists; reflexivity. }
   destruct Hp as [r Hp]. rewrite Hp in He. apply exec_out in He.
-  destruct He as [->| ->]; discriminate.
+  intros Hr. apply relabel_released in Hr. destruct He as [->| ->]; discriminate.
 Qed.
 
 (* the pure checks agree: IsAttestationSlashable / IsBeaconBlockSlashable report an error *)
@@ -621,6 +627,57 @@ Qed.
 Lemma crash_releases_nothing x o x' r :
   step x o = (x', r) -> o_out r = Crashed -> rel1 r = [].
 Proof. intros _ H. unfold rel1. rewrite H. reflexivity. Qed.
+
+(* a call whose database writes are refused releases nothing and leaves the records as they were:
+   the high-water mark is written before the signature is produced *)
+Lemma exec_cut0 s ws out :
+  exec s (Some 0) (ws, out) = (s, if 1 <=? nlen ws then Crashed else out).
+Proof.
+  unfold exec. replace (0 <=? nlen ws) with true by (symmetry; apply N.leb_le; lia). simpl andb.
+  destruct (1 <=? nlen ws) eqn:E; [reflexivity|].
+  destruct ws as [|w ws]; [reflexivity|]. unfold nlen in E. simpl length in E.
+  apply N.leb_gt in E. lia.
+Qed.
+
+Lemma write_refused_sign_att x s t e :
+  wfail e = true ->
+  (forall g, o_out (snd (step x (OSignAtt s t e))) <> Released g) /\
+  st (fst (step x (OSignAtt s t e))) = st x.
+Proof.
+  intros Hw. unfold step. cbn [op_cut op_wfail]. rewrite Hw.
+  destruct (plan x (OSignAtt s t e)) as [ws out] eqn:Hp. rewrite exec_cut0. cbn [fst snd o_out st with_store].
+  split; [|reflexivity]. intros g Hr. apply relabel_released in Hr.
+  destruct (1 <=? nlen ws) eqn:E; [discriminate|]. subst out.
+  simpl in Hp.
+  destruct (negb (acct (st x))); [inversion Hp|].
+  destruct (far_epoch (horizon x) t || far_epoch (horizon x) s); [inversion Hp|].
+  destruct (check_att e (st x) s t) as [r0|] eqn:Hchk; [inversion Hp|].
+  apply check_att_none in Hchk. destruct Hchk as (hs & ht & Hrec & Hhs & Hht).
+  inversion Hp as [[Hws Hg]]. unfold update_att in Hws. rewrite Hrec in Hws.
+  assert (Hlt : (ht <? t) = true) by (apply N.ltb_lt; assumption).
+  rewrite Hlt, orb_true_r in Hws. subst ws. discriminate.
+Qed.
+
+Lemma write_refused_sign_blk x sl e :
+  wfail e = true ->
+  (forall g, o_out (snd (step x (OSignBlk sl e))) <> Released g) /\
+  st (fst (step x (OSignBlk sl e))) = st x.
+Proof.
+  intros Hw. unfold step. cbn [op_cut op_wfail]. rewrite Hw.
+  destruct (plan x (OSignBlk sl e)) as [ws out] eqn:Hp. rewrite exec_cut0. cbn [fst snd o_out st with_store].
+  split; [|reflexivity]. intros g Hr. apply relabel_released in Hr.
+  destruct (1 <=? nlen ws) eqn:E; [discriminate|]. subst out.
+  simpl in Hp.
+  destruct (negb (acct (st x))); [inversion Hp|].
+  destruct (far_slot (horizon x) sl); [inversion Hp|].
+  destruct (check_prop e (st x) sl) as [r0|] eqn:Hchk; [inversion Hp|].
+  apply check_prop_none in Hchk. destruct Hchk as (Hpos & Hrec).
+  inversion Hp as [[Hws Hg]]. unfold update_prop in Hws.
+  destruct Hrec as [Hr0|[p [Hr0 Hpl]]]; rewrite Hr0 in Hws.
+  - subst ws. discriminate.
+  - assert (Hlt : (p <? sl) = true) by (apply N.ltb_lt; assumption).
+    rewrite Hlt in Hws. subst ws. discriminate.
+Qed.
 
 (* restart changes nothing that is persisted *)
 Lemma restart_identity x : fst (step x ORestart) = x.
@@ -766,7 +823,8 @@ Qed.
 
 (* ---- a history inside the quantifier (non-vacuity) ---------------------------------------------- *)
 
-Definition crash_after (k : N) : env := {| cut := Some k; rfail := false |}.
+Definition crash_after (k : N) : env := {| cut := Some k; rfail := false; wfail := false |}.
+Definition write_refused : env := {| cut := None; rfail := false; wfail := true |}.
 
 Definition example_history : list op :=
   [ OAdd env0;                      (* epoch 5: records (4,5) / slot 160 *)
@@ -789,5 +847,8 @@ Definition example_history : list op :=
     OSignBlk 224 env0;              (* refused *)
     OSignBlk 256 env0;              (* released *)
     OReact env0;
+    OTick 32;
+    OSignAtt 7 9 write_refused;     (* the record cannot be advanced: refused, nothing released *)
+    OSignAtt 7 9 env0;              (* released once the database accepts writes again *)
     OCorrupt CAttGarbage;
     OSignAtt 7 8 env0 ].            (* refused: unreadable record *)
